@@ -85,6 +85,7 @@ type Obligation struct {
 	Result   *SolverResult
 	Trivial  bool
 	Status   string // discharged, failed, unknown
+	Second   string // thorough tier: second solver and its answer on the same query
 	fn       *FnCtx
 }
 
